@@ -239,24 +239,28 @@ Section Open.
 
   Definition parse_expression (s : pstate) : res expr := expr_fn P_LOWEST s.
 
-  (* ParseFunctionParameters: the COMMA loop *)
+  (* ParseFunctionParameters: the COMMA loop (every parameter is an IDENT token: a failed
+     ExpectToken(IDENT) returns nil from inside the loop) followed, when the loop is left
+     normally, by the final ExpectToken(RPAREN) *)
   Fixpoint params_loop (n : nat) (acc : list ident) (s : pstate) : res (list ident) :=
     match n with
     | O => None
     | S n' =>
         if peek_is s T_COMMA then
-          let s2 := ps_next (ps_next s) in
+          let '(ok, s2) := expect (ps_next s) T_IDENT in
+          if negb ok then Some ([], s2) else
           params_loop n' (acc ++ [mk_ident (ps_cur s2)]) s2
-        else Some (acc, s)
+        else
+          let '(ok, s3) := expect s T_RPAREN in
+          if ok then Some (acc, s3) else Some ([], s3)
     end.
 
   Definition parse_function_parameters (s : pstate) : res (list ident) :=
     if peek_is s T_RPAREN then Some ([], ps_next s)
     else
-      let s1 := ps_next s in
-      do (ids, s2) <- params_loop loop_fuel [mk_ident (ps_cur s1)] s1;
-      let '(ok, s3) := expect s2 T_RPAREN in
-      if ok then Some (ids, s3) else Some ([], s3).
+      let '(ok, s1) := expect s T_IDENT in
+      if negb ok then Some ([], s1) else
+      params_loop loop_fuel [mk_ident (ps_cur s1)] s1.
 
   (* ParseBlockStatement: the statement loop *)
   Fixpoint block_loop (n : nat) (acc : list stmt) (s : pstate) : res (list stmt) :=
